@@ -1,35 +1,43 @@
 /- C05 for the deep copy `copyInto` (AJ/Model/DL.lean): whatever allocation fails during the copy (element / key /
    value slots, extension slots, string copies, pool blocks, the pool table), the destination document stays well-formed,
-   every location outside the target keeps its value, nothing of the old document is released, and what is left at the
-   target is a `PartialCopy` of the source value; an incomplete copy is always flagged `overflowed`.
+   every location outside the target keeps its value, nothing of the old document outside the target is released, and
+   what is left at the target is a `PartialCopy` - a PREFIX - of the source value; an incomplete copy is always flagged
+   `overflowed`, and (for a document that was not flagged) a flagged copy is always incomplete.
    Proof: AJ/Lemmas/DocCopy.lean (the same induction as the success case, `C04.copyInto_refines`).
 
-   What the model leaves behind (read off `copyIntoF` / `copyMembers`, and proved below):
+   What the model does on failure (`copyIntoF` / `copyElems` / `copyMembers`; proved below):
    * a scalar or string whose extension slot / string copy could not be allocated is left null;
-   * `JsonArray::set`: an element whose slot could not be allocated is skipped and THE FOLLOWING ONES ARE STILL ATTEMPTED:
-     the result is a sub-sequence, not necessarily a prefix. Evidence (compiled evaluation with `#eval`; more than one slot,
-     so the kernel cannot evaluate it): geometry `⟨2,1,1,16,16⟩` (2 slots per pool), allocator with `failAt := [3]`
-     (the block of the second pool), source `[1,2,3,4,5]`: the copy `c` has `c.show c.root = "[I1,I2,I4,I5]"`,
-     `c.overflowed = true`, allocator log (most recent first) `["A32","R64","A32!","A32","A32"]`. An element whose slot was obtained is
-     always linked, with a partial copy of its value (possibly null);
-   * `JsonObject::set`: a member whose key slot, value slot or key copy could not be allocated is skipped (slots already
-     obtained for it stay live but unreachable, as in `C05.add_member_fail_clean`); a member that was added has exactly the
-     source key and a partial copy of the value. There is never a member without key or without value slot (object
-     chains of a `WFG` document alternate key and value slots). -/
+   * `JsonArray::set` STOPS at the first `add(element)` that reports failure: the slot could not be allocated, or the copy
+     into the new slot left the document flagged - then the slot, WITH whatever was copied into it, is released again
+     (`DL.free_built`). The array holds complete copies of a prefix of the elements; there is no partial last element.
+   * `JsonObject::set` STOPS at the first member that reports failure: the member could not be added (slots already
+     obtained for it stay live but unreachable, as in `C05.add_member_fail_clean`), or the copy of its value left the
+     document flagged - that member stays, with its key and a partial copy of its value (possibly null), as the LAST
+     member. There is never a member without key or without value slot (object chains of a `WFG` document alternate
+     key and value slots).
+   * every `set` reports `!overflowed()` and the flag is sticky: in a document that is ALREADY flagged each loop stops
+     after its first round although no allocation fails (`copy_into_flagged_document`: arrays are left empty, objects
+     keep their first member only, scalars and strings are still copied).
+   Evidence (compiled evaluation with `#eval`; these need more than one slot, so the kernel cannot evaluate them, see
+   the note in `C04.ExC`): geometry `⟨2,1,1,16,16⟩` (2 slots per pool), source `[1,2,3,4,5]`, allocator failing at
+   call k: k=1 gives `[]`, k=2 and k=3 give `[1,2]`, k=4 and k=5 give `[1,2,3,4]`, all flagged; no failure gives
+   `[1,2,3,4,5]`, not flagged. Geometry `⟨4,1,1,16,16⟩`, source `{"a":"hi","b":2}` (copied string value): failure at
+   call 1 gives `{}`, at call 2 (the string copy) gives `{"a":null}`, both flagged. Into an already flagged empty
+   document, without any failure: `{"a":"hi","b":2}` gives `{"a":"hi"}`, `[1,2,3,4,5]` gives `[]`, `"hi"` gives `"hi"`. -/
 import AJ.Props.C04Copy
 namespace C05
 open DL
 open JD (Byte Val)
 
-/-- FAILURE-SAFE COPY. Same hypotheses as `C04.copyInto_refines` but NO assumption on the allocator (and none on what
-    the target location holds: the copy clears it first): for every outcome of the allocations, the result is
-    well-formed (cells and string table) for the layout `C04.copyLayout`, over the same geometry; the abstract document
-    is the old one in which only the value at `l` changed (`absWith`: every location outside `l` keeps its value; `Keep`:
-    cell by cell); the value now at `l` is a `PartialCopy` of the (complete) copy of the source value; if it is not the
-    complete copy then the result is flagged `overflowed`; the flag is never reset; conversely, if the flag was not set
-    before and is set after (some allocation of this copy failed), then the copy IS incomplete (a failed allocation
-    always costs an element, a member, or a value left null); and every slot of the old document outside the subtree
-    cleared at `l` stays live (nothing else is released). -/
+/-- FAILURE-SAFE COPY. Same hypotheses as `C04.copyInto_refines` but NO assumption on the allocator, on the overflow
+    flag of `d`, or on what the target location holds (the copy clears it first): for every outcome of the
+    allocations, the result is well-formed (cells and string table) for the layout `C04.copyLayout`, over the same
+    geometry; the abstract document is the old one in which only the value at `l` changed (`absWith`: every location
+    outside `l` keeps its value; `Keep`: cell by cell); the value now at `l` is a `PartialCopy` (a prefix, see
+    `DL.PartialCopy`) of the complete copy of the source value; if it is not the complete copy then the result is
+    flagged `overflowed`; the flag is never reset; conversely, if the flag was not set before and is set after (some
+    allocation of this copy failed), then the copy IS incomplete; and every slot of the old document outside the
+    subtree cleared at `l` stays live (nothing else is released). -/
 theorem copy_fail_safe {d src : Doc} {F Fs : Forest} {l ls : Loc}
     (w : WFG d F) (hs : StrOK d (d.strRefs F)) (gok : PL.GeoOK d.g) (hl : isLoc F l)
     (ws : WFG src Fs) (hls : isLoc Fs ls) (hnd : NoDupKeys (src.toVal (src.get ls))) :
@@ -49,7 +57,7 @@ theorem copy_fail_safe {d src : Doc} {F Fs : Forest} {l ls : Loc}
     (∀ x ∈ F.ids, x ∉ (layoutAt F l).ids →
       PL.live (copyInto d l src (src.get ls)).g (copyInto d l src (src.get ls)).pl x) ∧
     Keep d (copyInto d l src (src.get ls)) F l := by
-  obtain ⟨a, b, g, c, p, e, ov, inc, _, lv, k⟩ :=
+  obtain ⟨a, b, g, c, p, e, ov, inc, _, _, lv, k⟩ :=
     copyInto_doc_gen w hs gok hl (VOK_at ws hls) (C04.src_fuel_ok ws hls) hnd
   refine ⟨a, b, g, c, p, ?_, ov, inc, lv, k⟩
   intro hne
@@ -66,6 +74,26 @@ theorem copy_flag_iff_incomplete {d src : Doc} {F Fs : Forest} {l ls : Loc}
   obtain ⟨_, _, _, _, _, a, _, b, _⟩ := copy_fail_safe w hs gok hl ws hls hnd
   exact ⟨b hov, a⟩
 
+/-- COPY INTO AN ALREADY FLAGGED DOCUMENT (`d.overflowed = true`): every `set` reports `!overflowed()`, so every loop
+    stops after its first round although no allocation need fail. The result is still well-formed and flagged, every
+    location outside `l` keeps its value, and the value left at `l` is a `FlaggedCopy` of the complete copy: a scalar
+    or string is copied (or left null if its own allocation fails), an array is left EMPTY, an object keeps at most its
+    FIRST member (with its key), whose value is again a flagged copy. -/
+theorem copy_into_flagged_document {d src : Doc} {F Fs : Forest} {l ls : Loc}
+    (w : WFG d F) (hs : StrOK d (d.strRefs F)) (gok : PL.GeoOK d.g) (hl : isLoc F l)
+    (ws : WFG src Fs) (hls : isLoc Fs ls) (hnd : NoDupKeys (src.toVal (src.get ls))) (hov : d.overflowed = true) :
+    WFG (copyInto d l src (src.get ls)) (C04.copyLayout d F l src (src.get ls)) ∧
+    StrOK (copyInto d l src (src.get ls))
+      ((copyInto d l src (src.get ls)).strRefs (C04.copyLayout d F l src (src.get ls))) ∧
+    (copyInto d l src (src.get ls)).overflowed = true ∧
+    abs (copyInto d l src (src.get ls)) =
+      absWith d F l ((copyInto d l src (src.get ls)).toVal ((copyInto d l src (src.get ls)).get l)) ∧
+    FlaggedCopy ((copyInto d l src (src.get ls)).toVal ((copyInto d l src (src.get ls)).get l))
+      (copyVal (src.toVal (src.get ls))) := by
+  obtain ⟨a, b, _, c, _, _, ov, _, fl, _⟩ :=
+    copyInto_doc_gen w hs gok hl (VOK_at ws hls) (C04.src_fuel_ok ws hls) hnd
+  exact ⟨a, b, ov hov, c, fl hov⟩
+
 /-- FRAME under failure: every other reachable location `l'` outside the subtree cleared at `l`, whose own subtree
     contains neither `l` nor anything of that subtree, designates exactly the same value after the copy, whatever failed. -/
 theorem copy_fail_frame {d src : Doc} {F Fs : Forest} {l ls l' : Loc}
@@ -76,7 +104,7 @@ theorem copy_fail_frame {d src : Doc} {F Fs : Forest} {l ls l' : Loc}
     (copyInto d l src (src.get ls)).toVal ((copyInto d l src (src.get ls)).get l') = d.toVal (d.get l') :=
   (C04.copyInto_frame w hs gok hl ws hls hnd hl' hne hout hdisj).2
 
-/-! ## What `PartialCopy` allows (inversion) -/
+/-! ## What `PartialCopy` and `FlaggedCopy` allow (inversion) -/
 
 /-- a partially copied string is the string, or null -/
 theorem partial_str {x : Val} {s : List Byte} (h : PartialCopy x (.str s)) : x = .str s ∨ x = .null := by
@@ -90,45 +118,69 @@ theorem partial_num {x : Val} {n : JD.Num} (h : PartialCopy x (.num n)) : x = .n
   · exact Or.inl rfl
   · exact Or.inr rfl
 
-/-- a partially copied array is null or an array of partial copies of a sub-sequence of the elements -/
-theorem partial_arr {x : Val} {xs : List Val} (h : PartialCopy x (.arr xs)) :
-    x = .null ∨ ∃ xs', x = .arr xs' ∧ PartialL xs' xs := by
+/-- a partially copied array is an array holding a PREFIX of the elements, each one complete (never null: the target
+    was made an array before the first element) -/
+theorem partial_arr {x : Val} {xs : List Val} (h : PartialCopy x (.arr xs)) : ∃ xs', x = .arr xs' ∧ xs' <+: xs := by
   cases h
-  · exact Or.inr ⟨xs, rfl, PartialL.refl xs⟩
-  · exact Or.inl rfl
-  · rename_i xs' h; exact Or.inr ⟨xs', rfl, h⟩
+  · exact ⟨xs, rfl, List.prefix_refl _⟩
+  · rename_i h; cases h
+  · rename_i xs' h; exact ⟨xs', rfl, h⟩
 
-/-- a partially copied object is null or an object whose members are partial copies of a sub-sequence of the members -/
+/-- a partially copied object is an object whose members are a prefix of the members, all complete but possibly the last
+    one, which has its key and a partial copy of its value -/
 theorem partial_obj {x : Val} {ms : List (List Byte × Val)} (h : PartialCopy x (.obj ms)) :
-    x = .null ∨ ∃ ms', x = .obj ms' ∧ PartialM ms' ms := by
+    ∃ ms', x = .obj ms' ∧ PartialM ms' ms := by
   cases h
-  · exact Or.inr ⟨ms, rfl, PartialM.refl ms⟩
-  · exact Or.inl rfl
-  · rename_i ms' h; exact Or.inr ⟨ms', rfl, h⟩
+  · exact ⟨ms, rfl, PartialM.pre (List.prefix_refl _)⟩
+  · rename_i h; cases h
+  · rename_i ms' h; exact ⟨ms', rfl, h⟩
 
-/-- never more elements than the source -/
-theorem partial_arr_length : ∀ {xs' xs : List Val}, PartialL xs' xs → xs'.length ≤ xs.length
-  | _, _, .nil => Nat.le_refl _
-  | _, _, .skip _ h => Nat.le_succ_of_le (partial_arr_length h)
-  | _, _, .cons _ h => Nat.succ_le_succ (partial_arr_length h)
+/-- the members left: a prefix, or a prefix followed by one member with the source key and a partial value -/
+theorem partial_members : ∀ {ms' ms : List (List Byte × Val)}, PartialM ms' ms →
+    ms' <+: ms ∨ ∃ p k v' v rest, ms' = p ++ [(k, v')] ∧ ms = p ++ (k, v) :: rest ∧ PartialCopy v' v
+  | _, _, .pre h => Or.inl h
+  | _, _, .last (p := p) (k := k) (v' := v') (v := v) (rest := rest) h => Or.inr ⟨p, k, v', v, rest, rfl, rfl, h⟩
 
-/-- the keys left are a sub-sequence of the source keys: every member left has a key of the source, in source order (no
-    invented, duplicated or reordered member) -/
+/-- the keys left are a prefix of the source keys: every member left has its key, in source order, nothing is skipped -/
 theorem partial_obj_keys : ∀ {ms' ms : List (List Byte × Val)}, PartialM ms' ms →
-    List.Sublist (ms'.map (·.1)) (ms.map (·.1))
-  | _, _, .nil => List.Sublist.slnil
-  | _, _, .skip _ h => List.Sublist.cons _ (partial_obj_keys h)
-  | _, _, .cons _ h => List.Sublist.cons_cons _ (partial_obj_keys h)
+    (ms'.map (·.1)) <+: (ms.map (·.1))
+  | _, _, .pre h => by
+    obtain ⟨t, rfl⟩ := h
+    exact ⟨t.map (·.1), by rw [List.map_append]⟩
+  | _, _, .last (p := p) (k := k) (rest := rest) _ =>
+    ⟨rest.map (·.1), by simp [List.map_append]⟩
+
+/-- in a flagged document an array is left empty -/
+theorem flagged_arr {x : Val} {xs : List Val} (h : FlaggedCopy x (.arr xs)) : x = .arr [] := by
+  cases h
+  · rename_i h; cases h
+  · rename_i h; cases h
+  · rfl
+
+/-- in a flagged document an object keeps at most its first member -/
+theorem flagged_obj {x : Val} {ms : List (List Byte × Val)} (h : FlaggedCopy x (.obj ms)) :
+    x = .obj [] ∨ ∃ k x' v rest, ms = (k, v) :: rest ∧ x = .obj [(k, x')] ∧ FlaggedCopy x' v := by
+  cases h
+  · rename_i h; cases h
+  · rename_i h; cases h
+  · exact Or.inl rfl
+  · rename_i k x' v rest h; exact Or.inr ⟨k, x', v, rest, rfl, rfl, h⟩
+
+/-- in a flagged document a string is still copied, unless its own allocation fails -/
+theorem flagged_str {x : Val} {s : List Byte} (h : FlaggedCopy x (.str s)) : x = .str s ∨ x = .null := by
+  cases h
+  · exact Or.inl rfl
+  · exact Or.inr rfl
 
 /-! `PartialCopy` is not the trivial relation -/
 example : ¬ PartialCopy (.bool true) (.bool false) := by intro h; cases h
-example : ¬ PartialCopy (.arr [.null, .null]) (.arr [.str [0x68]]) := by
+example : ¬ PartialCopy (.arr [.null]) (.arr [.str [0x68]]) := by
   intro h
-  cases h
-  rename_i h
-  cases h with
-  | skip _ h => cases h
-  | cons _ h => cases h
+  obtain ⟨xs', e, t, ht⟩ := partial_arr h
+  injection e with e
+  subst e
+  injection ht with h1 _
+  cases h1
 
 /-! ## Non-vacuity -/
 namespace Ex
@@ -138,6 +190,8 @@ open C04.Ex C04.ExC
 def z0f : Doc := { z0 with pl := { z0.pl with failFrom := some 1 } }
 /-- the empty document with an allocator whose second call fails (the first one, the pool block, succeeds) -/
 def z0g : Doc := { z0 with pl := { z0.pl with failAt := [2] } }
+/-- the empty document, already flagged `overflowed`, with an allocator that never fails -/
+def zfl : Doc := { z0 with overflowed := true }
 
 theorem wfg_null_root {d : Doc} (hr : d.root = .null) (hp : PL.Inv d.g d.pl) : WFG d .nil := by
   refine ⟨by rw [hr]; rfl, List.nodup_nil, fun i hi => (by cases hi), hp, fun i hi => (by cases hi), ?_⟩
@@ -150,9 +204,11 @@ theorem wz0f : WFG z0f .nil := wfg_null_root rfl (PL.init_inv gok [] (some 1))
 theorem sz0f : StrOK z0f (z0f.strRefs .nil) := ⟨by decide +kernel, by decide +kernel, by decide +kernel, by decide +kernel⟩
 theorem wz0g : WFG z0g .nil := wfg_null_root rfl (PL.init_inv gok [2])
 theorem sz0g : StrOK z0g (z0g.strRefs .nil) := ⟨by decide +kernel, by decide +kernel, by decide +kernel, by decide +kernel⟩
+theorem wzfl : WFG zfl .nil := wfg_null_root rfl (PL.init_inv gok [])
+theorem szfl : StrOK zfl (zfl.strRefs .nil) := ⟨by decide +kernel, by decide +kernel, by decide +kernel, by decide +kernel⟩
 
 /-- `copy_fail_safe` applies, allocator failing from the start: copying `["hi"]` leaves the EMPTY array at the root (the
-    element slot could not be allocated), flagged, well-formed; `[]` is a partial copy of `["hi"]` -/
+    element slot could not be allocated), flagged, well-formed; `[]` is a prefix of `["hi"]` -/
 example : WFG (copyInto z0f .root e4 (e4.get .root)) .nil ∧ abs (copyInto z0f .root e4 (e4.get .root)) = .arr [] ∧
     (copyInto z0f .root e4 (e4.get .root)).overflowed = true ∧ PartialCopy (.arr []) (.arr [.str hi]) := by
   obtain ⟨a, _, _, c, p, _⟩ := copy_fail_safe (l := .root) (ls := .root) wz0f sz0f gok trivial w4 trivial e4_nodup
@@ -164,31 +220,72 @@ example : WFG (copyInto z0f .root e4 (e4.get .root)) .nil ∧ abs (copyInto z0f 
   rw [e4_val] at p
   exact ⟨a, c, by decide +kernel, p⟩
 
-/-- `copy_fail_safe` applies, string copy failing: copying `["hi"]` leaves `[null]` (the element slot exists, its value
-    could not be copied), flagged, well-formed over one slot -/
-example : WFG (copyInto z0g .root e4 (e4.get .root)) (.cons none 0 .nil .nil) ∧
-    abs (copyInto z0g .root e4 (e4.get .root)) = .arr [.null] ∧
-    (copyInto z0g .root e4 (e4.get .root)).overflowed = true ∧ PartialCopy (.arr [.null]) (.arr [.str hi]) := by
-  obtain ⟨a, _, _, c, p, _⟩ := copy_fail_safe (l := .root) (ls := .root) wz0g sz0g gok trivial w4 trivial e4_nodup
-  have hl : C04.copyLayout z0g .nil .root e4 (e4.get .root) = .cons none 0 .nil .nil := by decide +kernel
-  have hv : (copyInto z0g .root e4 (e4.get .root)).toVal ((copyInto z0g .root e4 (e4.get .root)).get .root) = .arr [.null] :=
+/-- `copy_fail_safe` applies, string copy failing: the element slot is obtained, the copy of `"hi"` into it fails, and the
+    slot is RELEASED again: the root is the empty array (not `[null]`), flagged, well-formed over no slot, and slot 0
+    is not live any more -/
+example : WFG (copyInto z0g .root e4 (e4.get .root)) .nil ∧
+    abs (copyInto z0g .root e4 (e4.get .root)) = .arr [] ∧
+    (copyInto z0g .root e4 (e4.get .root)).overflowed = true ∧
+    (copyInto z0g .root e4 (e4.get .root)).pl.free = [0] := by
+  obtain ⟨a, _, _, c, _⟩ := copy_fail_safe (l := .root) (ls := .root) wz0g sz0g gok trivial w4 trivial e4_nodup
+  have hl : C04.copyLayout z0g .nil .root e4 (e4.get .root) = .nil := by decide +kernel
+  have hv : (copyInto z0g .root e4 (e4.get .root)).toVal ((copyInto z0g .root e4 (e4.get .root)).get .root) = .arr [] :=
     valEq_sound _ _ (by decide +kernel)
   rw [hl] at a
-  rw [hv] at c p
-  rw [e4_val] at p
-  exact ⟨a, c, by decide +kernel, p⟩
+  rw [hv] at c
+  exact ⟨a, c, by decide +kernel, by decide +kernel⟩
 
-/-- the clause "incomplete ⇒ flagged" is used with a true premise here: `[null] ≠ ["hi"]` -/
+/-- `copy_fail_safe` applies to a string value (no loop): the string copy fails, the value is left null, flagged -/
+example : abs (copyInto z0f .root e4 (e4.get (.slot 0))) = .null ∧
+    (copyInto z0f .root e4 (e4.get (.slot 0))).overflowed = true ∧ PartialCopy .null (.str hi) := by
+  have hn : NoDupKeys (e4.toVal (e4.get (.slot 0))) := by
+    rw [show e4.toVal (e4.get (.slot 0)) = .str hi from valEq_sound _ _ (by decide +kernel)]; trivial
+  obtain ⟨_, _, _, c, p, _⟩ := copy_fail_safe (l := .root) (ls := .slot 0) wz0f sz0f gok trivial w4 loc0 hn
+  have hv : (copyInto z0f .root e4 (e4.get (.slot 0))).toVal ((copyInto z0f .root e4 (e4.get (.slot 0))).get .root) =
+      .null := valEq_sound _ _ (by decide +kernel)
+  rw [hv] at c p
+  rw [show copyVal (e4.toVal (e4.get (.slot 0))) = .str hi from valEq_sound _ _ (by decide +kernel)] at p
+  exact ⟨c, by decide +kernel, p⟩
+
+/-- the clause "incomplete ⇒ flagged" is used with a true premise here: `[] ≠ ["hi"]` -/
 example : (copyInto z0g .root e4 (e4.get .root)).overflowed = true := by
   obtain ⟨_, _, _, _, _, f, _⟩ := copy_fail_safe (l := .root) (ls := .root) wz0g sz0g gok trivial w4 trivial e4_nodup
   refine f ?_
-  have hv : (copyInto z0g .root e4 (e4.get .root)).toVal ((copyInto z0g .root e4 (e4.get .root)).get .root) = .arr [.null] :=
+  have hv : (copyInto z0g .root e4 (e4.get .root)).toVal ((copyInto z0g .root e4 (e4.get .root)).get .root) = .arr [] :=
     valEq_sound _ _ (by decide +kernel)
   rw [hv, e4_val]
   intro h
   injection h with h
-  injection h with h _
   cases h
+
+/-- `copy_flag_iff_incomplete` applies (the document was not flagged, the copy is): the value left is not the
+    complete copy -/
+example : (copyInto z0g .root e4 (e4.get .root)).toVal ((copyInto z0g .root e4 (e4.get .root)).get .root) ≠
+    copyVal (e4.toVal (e4.get .root)) :=
+  (copy_flag_iff_incomplete (l := .root) (ls := .root) wz0g sz0g gok trivial w4 trivial e4_nodup (by decide +kernel)).1
+    (by decide +kernel)
+
+/-- `copy_into_flagged_document` applies: into the flagged empty document, `["hi"]` is copied as the EMPTY array although
+    no allocation fails (slot 0 and the string node are obtained, then released); the result is well-formed -/
+example : WFG (copyInto zfl .root e4 (e4.get .root)) .nil ∧ abs (copyInto zfl .root e4 (e4.get .root)) = .arr [] ∧
+    FlaggedCopy (.arr []) (.arr [.str hi]) ∧ (copyInto zfl .root e4 (e4.get .root)).strings = [] := by
+  obtain ⟨a, _, _, c, p⟩ := copy_into_flagged_document (l := .root) (ls := .root) wzfl szfl gok trivial w4 trivial
+    e4_nodup rfl
+  have hl : C04.copyLayout zfl .nil .root e4 (e4.get .root) = .nil := by decide +kernel
+  have hv : (copyInto zfl .root e4 (e4.get .root)).toVal ((copyInto zfl .root e4 (e4.get .root)).get .root) = .arr [] :=
+    valEq_sound _ _ (by decide +kernel)
+  rw [hl] at a
+  rw [hv] at c p
+  rw [e4_val] at p
+  exact ⟨a, c, p, by decide +kernel⟩
+
+/-- `copy_into_flagged_document` applies to a string: it IS copied into the flagged document -/
+example : abs (copyInto zfl .root e4 (e4.get (.slot 0))) = .str hi := by
+  have hn : NoDupKeys (e4.toVal (e4.get (.slot 0))) := by
+    rw [show e4.toVal (e4.get (.slot 0)) = .str hi from valEq_sound _ _ (by decide +kernel)]; trivial
+  obtain ⟨_, _, _, c, _⟩ := copy_into_flagged_document (l := .root) (ls := .slot 0) wzfl szfl gok trivial w4 loc0 hn rfl
+  rw [c]
+  exact valEq_sound _ _ (by decide +kernel)
 
 /-- a history containing a copy whose allocations fail still ends in a well-formed document (`C04.historyC_refines`) -/
 example : ∃ d' F', C04.HistC z0g .nil d' F' ∧ WFG d' F' ∧ d'.overflowed = true := by
@@ -204,13 +301,6 @@ example : (copyInto e6 (.slot 1) e4 (e4.get .root)).toVal ((copyInto e6 (.slot 1
     e4_nodup loc5_0 (by intro h; cases h) (fun j hj => by rw [lay5_1]; exact fun h => by cases h)
     (fun x hx => by rw [lay5_0] at hx; cases hx)
   rw [h, e6_cells.1]; rfl
-
-/-- `copy_flag_iff_incomplete` applies (the document was not flagged, the copy is): the value left, `[null]`, is not the
-    complete copy -/
-example : (copyInto z0g .root e4 (e4.get .root)).toVal ((copyInto z0g .root e4 (e4.get .root)).get .root) ≠
-    copyVal (e4.toVal (e4.get .root)) :=
-  (copy_flag_iff_incomplete (l := .root) (ls := .root) wz0g sz0g gok trivial w4 trivial e4_nodup (by decide +kernel)).1
-    (by decide +kernel)
 
 end Ex
 end C05
